@@ -604,6 +604,10 @@ func poolWorkload(prop string, args []string) int {
 	shrunk := map[string]bool{}
 	for id := a.From; id < a.To; id++ {
 		rng := vlog.CaseRand(a.Seed, "pool", id) // C18 and C19 see the same histories
+		if prop == "C19" && id%25 == 24 {
+			guard(w, "txcache", func() { txCacheCase(w, id, rng) })
+			continue
+		}
 		cfg := poolCfg{BatchSize: uint64(1 + rng.Intn(8)), PoolSize: uint64(4 + rng.Intn(47)), StartSeq: uint64(rng.Intn(5)), Ledger: map[string]uint64{}}
 		nAcct := 2 + rng.Intn(4)
 		for i := 0; i < nAcct; i++ {
